@@ -34,7 +34,7 @@ def oracle(src, blk, rng):
     src_lines = src.split("\n")
     for n in p.nodes:
         name = n.get("name")
-        if n["kind"] in ("JumpLink", "Branch") and name and name != "__return__" and name not in p.label_at:
+        if n["kind"] in ("JumpLink", "Branch") and name and name != "<return>" and name not in p.label_at:
             for k, sl in enumerate(src_lines):
                 if _re.match(r"\s*" + _re.escape(name) + r"\s*:", sl):
                     rest = sl.split(":", 1)[1:] + src_lines[k + 1:]
@@ -103,7 +103,7 @@ def run(res, tier, seed):
             continue
         # which return of a multi-return function becomes the exit is a hash-order choice (F-28): two
         # runs of the same text can differ there, so such programs say nothing about the boundaries
-        if any("name=5f5f72657475726e5f5f/" in l for l in a + b):
+        if any("name=3c72657475726e3e/" in l for l in a + b):
             continue
         sa, sb = shape(a), shape(b)
         if sa != sb and first is None:
